@@ -1,4 +1,87 @@
-/- Model driver for C09 (stub: not built yet). -/
-import Driver.Common
+/-
+Model driver for C09 (same op lines as harness/c09.cpp):
 
-def main : IO Unit := pure ()
+  rd  <comp> <fd|buf> <ibs> <path> <fixes> <streams>
+  rtm <comp> <fd|buf> <ibs> <path> <fixes> <streams>
+
+<fixes>   = three 0/1 digits: bufMulti bzUnused bufTrunc (which repairs the tree under test has)
+<streams> = "-" or comma separated  csize:payloadlen[:t|:ts]   (t = truncated, ts = truncated with slack)
+            — the library oracle: what zlib / libbz2 see in the file (computed by the reference
+            implementation at generation time).  <path> is ignored.
+Output:  <status> lens=<rle> total=<n> | offs=<rle> fsize=<n>        (rtm: without the part after "|")
+-/
+import Driver.Common
+import Osmium.Model.Decomp
+
+open Osmium.Decomp
+
+namespace Driver.C09
+
+def rle (xs : List Nat) : String :=
+  let rec go : List Nat → Nat → Nat → List String → List String
+    | [], cur, n, acc => (if n == 0 then acc else (item cur n) :: acc)
+    | x :: xs, cur, n, acc =>
+      if n > 0 && x == cur then go xs cur (n + 1) acc
+      else go xs x 1 (if n == 0 then acc else (item cur n) :: acc)
+  let parts := (go xs 0 0 []).reverse
+  if parts.isEmpty then "-" else ",".intercalate parts
+where
+  item (v n : Nat) : String := if n > 1 then s!"{v}x{n}" else s!"{v}"
+
+def parseStream (w : String) : Option (Stream Unit) :=
+  match w.splitOn ":" with
+  | [c, p] => do
+    let c ← c.toNat?
+    let p ← p.toNat?
+    pure { csize := c, payload := List.replicate p () }
+  | [c, p, t] => do
+    let c ← c.toNat?
+    let p ← p.toNat?
+    if t == "t" then pure { csize := c, payload := List.replicate p (), trunc := true }
+    else if t == "ts" then pure { csize := c, payload := List.replicate p (), trunc := true, slack := true }
+    else none
+  | _ => none
+
+def parseStreams (w : String) : Option (CFile Unit) :=
+  if w == "-" then some [] else (w.splitOn ",").mapM parseStream
+
+def parseFixes (w : String) : Option Fixes :=
+  match w.toList with
+  | [a, b, c] =>
+    if [a, b, c].all (fun x => x == '0' || x == '1') then
+      some { bufMulti := a == '1', bzUnused := b == '1', bufTrunc := c == '1' }
+    else none
+  | _ => none
+
+def errStr (e : Err) : String :=
+  let c := match e.cls with
+    | .gzip => "gzip"
+    | .bzip2 => "bzip2"
+    | .fuel => "FUEL"
+  let p := match e.phase with
+    | .read => "read"
+    | .close => "close"
+  s!"err:{c}@{p}"
+
+def step (line : String) : String :=
+  match words line with
+  | [op, comp, mode, ibs, _path, fx, streams] =>
+    match (match comp with | "none" => some Comp.none | "gzip" => some Comp.gzip | "bzip2" => some Comp.bzip2 | _ => none),
+          (match mode with | "fd" => some Mode.fd | "buf" => some Mode.buf | _ => none),
+          ibs.toNat?, parseFixes fx, parseStreams streams with
+    | some c, some m, some ibs, some fx, some f =>
+      if op != "rd" && op != "rtm" then "bad-op" else
+      let r := readFile { ibs := ibs } fx c m f
+      let status := match r.err with
+        | none => "ok"
+        | some e => if op == "rtm" then s!"err:{(errStr e).drop 4 |>.takeWhile (· != '@')}@queue" else errStr e
+      let lens := r.chunks.map List.length
+      let head := s!"{status} lens={rle lens} total={lens.sum}"
+      if op == "rtm" then head
+      else s!"{head} | offs={rle r.offs} fsize={inputSize c f}"
+    | _, _, _, _, _ => "bad-op"
+  | _ => "bad-op"
+
+end Driver.C09
+
+def main : IO Unit := Driver.loopPure Driver.C09.step
